@@ -74,9 +74,20 @@ def check(ctx, src):
     ctx.check(pyq.contains(pof, lambda n: isinstance(n, ast.While) and norm(n.test) == "model is None" and norm(n.body[0]) == "model = self.try_parse_one_form()") is not None, "NONE-PROP", f"{HR}|parse_one_form|skips None",
               "parse_one_form must retry while the handler returned None", HR, pof.lineno, witness="'; c\\n x  quotes nothing", detail="while model is None")
     pfu = rq.methods["parse_forms_until"][1]
-    t = [norm(s) for s in pfu.body[-1].body] if isinstance(pfu.body[-1], ast.While) else []
-    ctx.check(t == ["self.slurp_space()", "if self.peek_and_getc(closer): break", "model = self.try_parse_one_form()", "if model is not None: yield model"], "NONE-PROP", f"{HR}|parse_forms_until|loop",
-              f"parse_forms_until loop is {t}", HR, pfu.lineno, witness="(a ; c\\n b) contains None / stops early", detail="skip space; closer?; parse; yield non-None")
+    # the loop of parse_forms_until: what try_parse_one_form returned is yielded only when it is not None, and white
+    # space is skipped before the closer is looked for
+    ys = [y for y in ast.walk(pfu) if isinstance(y, ast.Yield) and isinstance(y.value, ast.Name)]
+    verdict = None
+    for y in ys:
+        at = [str(a) for a in pyq.atoms(y, pfu)]
+        verdict = True if f"{y.value.id} is not None" in at else (False if verdict is None else verdict)
+    ctx.decide("NONE-PROP", f"{HR}|parse_forms_until|loop", verdict, "parse_forms_until yields what try_parse_one_form returned without testing it for None",
+               HR, pfu.lineno, witness="(a ; c\n b) contains None", detail="yield only non-None")
+    lp = next((n for n in pyq.walk_no_nested(pfu) if isinstance(n, ast.While)), None)
+    calls = [dotted(c.func) for c in pyq.calls(lp)] if lp is not None else []
+    order_ok = None if lp is None or "self.slurp_space" not in calls or "self.peek_and_getc" not in calls else calls.index("self.slurp_space") < calls.index("self.peek_and_getc") < (calls.index("self.try_parse_one_form") if "self.try_parse_one_form" in calls else 99)
+    ctx.decide("NONE-PROP", f"{HR}|parse_forms_until|order", order_ok, f"the loop calls {calls}: white space must be skipped before the closer is tested, and the closer tested before a form is parsed", HR, pfu.lineno,
+               witness="`( a )` is not closed by its `)`", detail="slurp_space; closer?; parse")
     td = rq.handlers["#"][2]
     am = pyq.contains(td, lambda n: isinstance(n, ast.Call) and dotted(n.func) == "as_model" and len(n.args) == 1 and isinstance(n.args[0], ast.Name))
     tv = am.args[0].id if am is not None else None
